@@ -410,6 +410,13 @@ def c01_oracle(payload):
                     bad.append('over real ground radiated + dissipated power exceeds the delivered power by %.2f %% of the apparent power' % (100 * imb))
             elif abs(imb) > 0.015:
                 bad.append('power balance off by %.2f %% of the apparent source power (P_src %.6g, P_rad %.6g, P_load %.6g)' % (100 * imb, p_src, p_rad, p_load))
+            # the same antenna solved again on the same object (e.g. after a field request): the same powers must come out
+            i1 = np.array(m.current).copy(); m.compute(); i2 = np.array(m.current)
+            p_src2 = sum(0.5 * (s.voltage * np.conj(m.current[s.idx])).real for s in m.sources)
+            p_load2 = sum(0.5 * l.impedance(m.f, p).real * abs(m.current[p.idx]) ** 2 for l in m.loads for p in l.pulses)
+            if abs(p_src2 - p_src) > 1e-9 * p_app or abs(p_load2 - p_load) > 1e-9 * p_app:
+                bad.append('power balance off after solving the same antenna again on the same object: delivered %.6g -> %.6g, dissipated %.6g -> %.6g, '
+                           'pattern integral %.6g' % (p_src, p_src2, p_load, p_load2, p_rad))
             r['bad'] = bad
         except Exception as e:
             r['error'] = exc_info(e)
